@@ -393,6 +393,12 @@ func runsFor(prop, tier string) []run {
 			{"rf3-from-3rw", mk(3, 4, rw3), pick(3, 5), minutes(pickf(0.8, 6))},
 			{"rf3-from-2rw+wo", mk(3, 4, rw2wo), pick(3, 5), minutes(pickf(0.8, 6))},
 			{"rf3-from-1rw", mk(3, 4, started), pick(4, 6), minutes(pickf(0.8, 6))},
+			// every management event sent the way the CLI and the replicas send it: controller/client -> controller/rest
+			{"rf3-from-2rw+wo-through-rest", func() eb.Cfg {
+				c := mk(3, 4, rw2wo)
+				c.ViaREST = true
+				return c
+			}(), pick(3, 4), minutes(pickf(0.6, 5))},
 			{"rf2-from-initial", mk(2, 3, nil), pick(6, 8), minutes(pickf(0.6, 4))},
 			{"rf1-from-initial", mk(1, 2, nil), pick(6, 8), minutes(pickf(0.4, 3))},
 			{"rf3-overlapping-adds", func() eb.Cfg {
